@@ -5,8 +5,9 @@
 //   emb m=<method> nm=brute|vptree|covertree em=dense|randomized k=5 d=2 conn=1 w=<num> ts=3 ratio=<num>
 //       metric=euclid|l1 sh=<e> X=x,y,z;x,y,z;...  [seed=<n>] [log=<bits>] [obs=0]
 //         X: integer coordinates, one `;`-separated group per sample, scaled by 2^-sh (exact dyadic data)
-//         seed: std::srand(seed) and verif_shuffle_generator().seed(seed) right before the call (randomised
-//               methods only; deterministic methods are NEVER reseeded, their result must not depend on it)
+//         seed: std::srand(seed) and verif_shuffle_generator().seed(seed) right before the call (both members of a
+//               metamorphic pair get the same seed = same generator history; in the history differential only
+//               randomised methods are seeded, a deterministic observed call never is)
 //         log : bit 0 info, bit 1 debug, bit 2 benchmark, bit 3 warning OFF  (mutates the Logging singleton)
 //       -> ok Y=<row;row;..> pre=<row;row;..> rhs=<..|-> ev=<full spectrum of the observed problem> sel=<selected>
 //          skip=<s> gen=<0|1> nobs=<eigen calls seen> | exc:<class>
